@@ -1,4 +1,4 @@
-// C16 harness: SaturatingAdd/SaturatingMul/DRA accumulation and every method
+// C16 harness: SaturatingAdd/SaturatingMul, the DRA accounting (dra.go), quantity conversions (quant.go) and every method
 // of scheduler/api.Resource, run on the real code.
 package main
 
